@@ -83,7 +83,12 @@ fn main() {
         let r = panic::catch_unwind(panic::AssertUnwindSafe(|| {
             let mut out = String::new();
             for form in line.split(";;") {
-                if let Some(rest) = form.trim_start().strip_prefix("#slices ") {
+                if let Some(rest) = form.trim_start().strip_prefix("#trace ") {
+                    // evaluate and report the error together with the depth of the recorded stack trace
+                    out = eval_all(&mut vm, rest);
+                    let depth = vm.last_stacktrace().map(|t| t.frames.len());
+                    out = format!("{} [trace-frames={:?}]", out, depth);
+                } else if let Some(rest) = form.trim_start().strip_prefix("#slices ") {
                     let (hdr, body) = rest.split_once(':').unwrap_or(("1 1000", rest));
                     let mut it = hdr.split_whitespace();
                     let budget: usize = it.next().and_then(|x| x.parse().ok()).unwrap_or(1);
